@@ -669,6 +669,13 @@ fn main() {
             rotor_case(&mut cx, &mut rng, "new_fa1", 64, shape, &st, &positions, Rotor::new_fa1);
         }
     }
+    // the validator sets on which `Rotor::new_fa1` could not be constructed before fix D8
+    // (PartitionSampler left trailing bins empty): now ordinary positive cases
+    for st in [vec![1u64; 100], vec![4, 2, 5, 2], vec![2, 5, 4, 2, 4, 5, 3, 1, 2, 2, 3, 1]] {
+        let pos = [(rng.below(1000), rng.below(8) as usize)];
+        cx.rec.count("rotor-new_fa1:former-D8-shape");
+        rotor_case(&mut cx, &mut rng, "new_fa1", 64, "formerd8", &st, &pos, Rotor::new_fa1);
+    }
     // with_sampler (same sampler type, rebuilt): regular quorum size, and a quorum shorter than
     // TOTAL_SHREDS (slice index panic for the shred indices beyond it: malformed stream)
     for &n in &[1usize, 4, 33, 150] {
